@@ -12,7 +12,8 @@ from vf.ref import refeval as R
 ID = 'C07'
 LEVEL = 'exploration'
 EXHAUSTIVE = {'quick': True, 'thorough': True}
-RULE = ('enumerated (finite, complete): (a) the 12 binary operators, unary '
+RULE = ("Equal-for-Python values of different kinds (1, TRUE, 1.0, 0, FALSE, 0.0, '1', 'TRUE') side by side in one model, inspected by one evaluator in rotated placement and evaluation order.  "
+        'enumerated (finite, complete): (a) the 12 binary operators, unary '
         'minus x operand position x 7 error codes x 12 representative other '
         'operands (one per scalar type and edge), as direct calls with '
         'library objects, as formulas with error literals and with '
@@ -185,6 +186,14 @@ def enumerate_cases(tier, shard=0, nshards=1):
         for inner, kind in NESTED:
             out.append({'k': 'is-nested', 'fn': fn, 'inner': inner,
                         'kind': kind})
+    # values that are EQUAL for Python (1, TRUE, 1.0 / 0, FALSE, 0.0) next to
+    # one another in plain cells of one model, inspected by one evaluator in
+    # every rotation of placement and of evaluation order
+    for rot in range(len(COEXIST)):
+        for rev in (0, 1):
+            for erot in range(0, len(COEXIST), 3):
+                out.append({'k': 'is-coexist', 'rot': rot, 'rev': rev,
+                            'erot': erot})
     out.append({'k': 'is', 'fn': 'NA', 'arg': None, 'mode': 'call'})
     out.append({'k': 'is', 'fn': 'NA', 'arg': None, 'mode': 'formula'})
     for i, c in enumerate(out):
@@ -358,6 +367,8 @@ def judge(case):
         return _op_types(case, res)
     if k == 'chain':
         return _chain(case, res)
+    if k == 'is-coexist':
+        return _is_coexist(case, res)
     if k == 'is-nested':
         return _is_nested(case, res)
     if k == 'is':
@@ -611,6 +622,54 @@ NESTED = [('ISERROR(A1)', 'b'), ('ISNA(A2)', 'b'), ('ISERR(A4)', 'b'),
           ('CONCATENATE(A3,A4)', 's'), ('IF(TRUE,"t",1)', 's'),
           ('A1', 'e:#DIV/0!'), ('A2', 'e:#N/A'), ('A1+1', 'e:#DIV/0!'),
           ('SUM(A2,1)', 'e:#N/A')]
+
+
+COEXIST = [1, True, 1.0, 0, False, 0.0, '1', 'TRUE', 2, 'x']
+
+
+def _is_coexist(case, res):
+    xl = lib.lib()
+    res.nontrivial = True
+    res.labels = ('is-coexist',)
+    vals = COEXIST[case['rot']:] + COEXIST[:case['rot']]
+    if case['rev']:
+        vals.reverse()
+    d, presets = {}, {}
+    for i, v in enumerate(vals):
+        a = 'Sheet1!A%d' % (i + 1)
+        if isinstance(v, bool):
+            d[a] = 987654
+            presets[a] = v
+        else:
+            d[a] = v
+        d['Sheet1!B%d' % (i + 1)] = '=ISNUMBER(A%d)' % (i + 1)
+        d['Sheet1!C%d' % (i + 1)] = '=ISTEXT(A%d)' % (i + 1)
+        d['Sheet1!D%d' % (i + 1)] = '=ISNUMBER(A%d+0)' % (i + 1)
+    model = lib.compile_dict(d)
+    ev = xl.Evaluator(model)
+    for a, v in presets.items():
+        ev.set_cell_value(a, v)
+    order = list(range(len(vals)))
+    order = order[case['erot']:] + order[:case['erot']]
+    for i in order:
+        v = vals[i]
+        isnum = isinstance(v, (int, float)) and not isinstance(v, bool)
+        for col, want in (('B', isnum), ('C', isinstance(v, str))):
+            o = lib.evaluate(model, 'Sheet1!%s%d' % (col, i + 1), ev)
+            if o != ('B', want):
+                res.fail('inspector-coexist:%s:%s' % (
+                    'ISNUMBER' if col == 'B' else 'ISTEXT',
+                    type(v).__name__), ('B', want), o,
+                    [vals, order, i + 1])
+                return res
+        if not isinstance(v, str):
+            # a typed operand in arithmetic stays a number / becomes one
+            o = lib.evaluate(model, 'Sheet1!D%d' % (i + 1), ev)
+            if o != ('B', True):
+                res.fail('typed-operand-coexist:%s' % type(v).__name__,
+                         ('B', True), o, [vals, order, i + 1])
+                return res
+    return res
 
 
 def _is_nested(case, res):
